@@ -14,6 +14,9 @@ pub struct Work {
     pub variant: u8,
     pub front: FrontKind,
     pub ops: Vec<HOp>,
+    /// (id, bytes) stored as `id.txt` and loaded through the library's built-in String / SharedString / Box<str> assets
+    #[serde(default)]
+    pub texts: Vec<(String, Vec<u8>)>,
 }
 
 fn content(g: &mut SplitMix, tag: &str) -> String {
@@ -46,6 +49,7 @@ impl Property for C03 {
     fn generate(&self, g: &mut SplitMix, k: &mut SplitMix, _tier: Tier) -> (Knobs, Value) {
         let knobs = Knobs::draw(k);
         let u = universe();
+        #[allow(unused_mut)]
         let mut tree = Tree::default();
         let exts = ["a", "b", "c", ""];
         // every subset of present / undecodable / absent / unreadable over the extension list
@@ -100,7 +104,12 @@ impl Property for C03 {
             }
         }
         let front = *g.pick(&[FrontKind::Hot, FrontKind::Cold, FrontKind::Local]);
-        (knobs, serde_json::to_value(Work { tree, variant: g.below(4) as u8, front, ops }).unwrap())
+        let pool: [&[u8]; 8] = [b"plain text", b"", "caf\u{e9} \u{20ac}".as_bytes(), &[0x63, 0x61, 0x66, 0xe9], &[0xff, 0xfe, 0x00], &[0xe2, 0x82], b"  padded \n", &[0xf0, 0x9f, 0x98, 0x80, 0x21]];
+        let texts: Vec<(String, Vec<u8>)> = (0..g.below(4)).map(|i| (format!("t{i}"), g.pick(&pool).to_vec())).collect();
+        for (id, bytes) in &texts {
+            tree.put(id, "txt", bytes);
+        }
+        (knobs, serde_json::to_value(Work { tree, variant: g.below(4) as u8, front, ops, texts }).unwrap())
     }
     fn execute(&self, case: &Case) -> Outcome {
         let w: Work = serde_json::from_value(case.work.clone()).unwrap();
@@ -129,8 +138,33 @@ impl Property for C03 {
     }
 }
 
+fn builtin_strings(world: &World, texts: &[(String, Vec<u8>)]) {
+    use assets_manager::SharedString;
+    for (id, bytes) in texts {
+        let valid = std::str::from_utf8(bytes).ok();
+        let any = world.front.any();
+        let results: [(&str, Result<String, String>); 3] = [
+            ("String", any.load::<String>(id).map(|h| h.read().clone()).map_err(|e| e.id().to_string())),
+            ("SharedString", any.load::<SharedString>(id).map(|h| h.read().to_string()).map_err(|e| e.id().to_string())),
+            ("Box<str>", any.load::<Box<str>>(id).map(|h| h.read().to_string()).map_err(|e| e.id().to_string())),
+        ];
+        for (ty, r) in results {
+            match (valid, r) {
+                (Some(v), Ok(s)) => detsim::check(s == v, "C03/builtin-string-content", || format!("load::<{ty}>({id}) = {s:?}, the file holds {v:?}")),
+                (Some(v), Err(e)) => detsim::fail("C03/builtin-string-rejected", format!("load::<{ty}>({id}) failed ({e}) although the file holds valid UTF-8 {v:?}")),
+                (None, Ok(s)) => detsim::fail("C03/builtin-string-accepts-invalid-utf8", format!("load::<{ty}>({id}) = {s:?} although the stored bytes {bytes:?} are not valid UTF-8 (a decoding error is expected)")),
+                (None, Err(e)) => {
+                    detsim::check(e == *id, "C03/error-names-wrong-id", || format!("load::<{ty}>({id}) failed with an error naming {e}"));
+                    detsim::count("reach.builtin_loader_rejected_invalid_utf8");
+                }
+            }
+        }
+    }
+}
+
 fn scenario(w: Work) {
     let mut world = World::new(w.front, w.tree.clone(), w.variant);
+    builtin_strings(&world, &w.texts);
     let mut failed: Vec<(Ty, String)> = vec![];
     for (i, op) in w.ops.iter().enumerate() {
         if crate::props::c02::is_edit(op) {
